@@ -223,7 +223,7 @@ def combinator_block(draw, c, spec, kind):
     return {"type": "nest", "outer": first, "inner": inner, "constraints": cs, "alignment": None}
 
 
-def _snap_pins(draw, spec):
+def _snap_pins(draw, spec, always=False):
     """Pin indices were drawn relative to the trial count WITHOUT the other constraints; MinimumTrials / Repeat move the
     ends.  Half of the pins are re-anchored to the final geometry of the block that carries them: first / last trial of
     its window counted from either end, and one step outside (0, -1, T-1, -T, T, -T-1)."""
@@ -232,9 +232,15 @@ def _snap_pins(draw, spec):
         if pins:
             T = estimate_T(dict(spec, block=b))
             if T:
+                from .known_shapes import _starts
+                start = _starts(spec)[0]
                 for x in pins:
-                    if draw(st.booleans()):
-                        x["index"] = draw(st.sampled_from([0, -1, T - 1, -T, -T, T, -T - 1]))
+                    if always or draw(st.booleans()):
+                        s0 = start.get(x["factor"], 0)
+                        if 0 < s0 < T:          # the factor's first applicable trial, from either end, and one before it
+                            x["index"] = draw(st.sampled_from([s0, -1, T - 1, -(T - s0), -(T - s0), s0 - 1, -T]))
+                        else:
+                            x["index"] = draw(st.sampled_from([0, -1, T - 1, -T, 0, -1, T - 1, -T, T, -T - 1]))
     for b in S.iter_blocks(spec["block"]):
         visit(b)
     return spec
@@ -299,11 +305,32 @@ SCENARIO_FEATURES = (
 )
 
 
+COMPANIONS = {
+    "weight-derived-crossed": ("repeat-leftover", "min-leftover", "repeat-leftover"),
+    "crossed-within-uncrossed-source": ("min-leftover", "repeat-leftover", "weight-crossed"),
+    "weight-crossed": ("min-leftover", "repeat-leftover", "preamble"),
+    "weight-uncrossed": ("min-leftover", "repeat-leftover"),
+    "preamble": ("repeat-leftover", "repeat-three", "min-leftover"),
+    "nested-window-crossed": ("repeat-leftover", "min-leftover"),
+    "pin": ("repeat-leftover", "preamble", "repeat-three"),
+    "run-length": ("repeat-three", "preamble", "repeat-leftover"),
+    "exactly-k": ("repeat-three", "preamble", "repeat-leftover"),
+    "exclude-crossed-basic": ("min-leftover", "preamble"),
+    "uncrossed-transition": ("repeat-three", "repeat-leftover"),
+    "strided-window-constrained": ("min-leftover", "repeat-leftover"),
+}
+
+
 @st.composite
 def scenario_spec(draw, c=None):
     c = c or DEFAULT
     k = draw(st.integers(2, 3))
     feats = set(draw(st.lists(st.sampled_from(SCENARIO_FEATURES), min_size=k, max_size=k, unique=True)))
+    # the round geometry (leftover round, several repetitions, preamble) interacts with every other feature: half of the
+    # time one of the drawn features brings such a companion along, so that these pairs are not left to chance
+    comp = [f for f in sorted(feats) if f in COMPANIONS]
+    if comp and draw(st.booleans()):
+        feats.add(draw(st.sampled_from(COMPANIONS[draw(st.sampled_from(comp))])))
     nl = lambda: draw(st.sampled_from([2, 2, 3]))                                       # noqa: E731
     def levels(prefix, n, weighted):
         out = []
@@ -420,12 +447,12 @@ def scenario_spec(draw, c=None):
         for n_ in crossing:
             ncomb *= len(S.levels_of(spec, n_))
         extra = (2 * Sz + draw(st.integers(0, 1))) if "repeat-three" in feats else \
-            draw(st.one_of(st.integers(1, max(1, 2 * Sz - 1)), st.sampled_from([min(ncomb, max(1, Sz - 1)), max(1, Sz - 1), 3])))
+            draw(st.one_of(st.integers(1, max(1, 2 * Sz - 1)), st.sampled_from([min(ncomb, max(1, Sz - 1)), min(ncomb, max(1, Sz - 1)), max(1, Sz - 1), 3])))
         spec["block"] = {"type": "repeat", "block": block, "constraints": [{"kind": "min", "k": T + extra}]}
     if c.get("aux"):
         spec["aux"] = draw(st.integers(0, 2 ** 30))
     spec["scenario"] = sorted(feats)
-    return _snap_pins(draw, spec)
+    return _snap_pins(draw, spec, always="pin" in feats)
 
 
 def mixed_spec(c=None, p_scenario=0.5):
